@@ -342,9 +342,9 @@ Definition spec_pkt (s : sstate) (nicid net : Z) (src dst : addr) (trans sport d
             | _ => 1
             end
         end in
-      (* a listener whose pin is unknown (-1) may or may not be registered on this NIC: both
-         readings are acceptable *)
-      let as_any := map (fun b => if b_pin b =? -1 then mkB (b_sock b) (b_trans b) (b_nets b) 0 (b_port b) (b_laddr b) (b_rport b) (b_raddr b) else b) (ss_binds s) in
+      (* a listener whose pin is unknown (-1) is registered either on this packet's NIC or on
+         another one: both readings are acceptable *)
+      let as_any := map (fun b => if b_pin b =? -1 then mkB (b_sock b) (b_trans b) (b_nets b) nicid (b_port b) (b_laddr b) (b_rport b) (b_raddr b) else b) (ss_binds s) in
       let without := filter (fun b => negb (b_pin b =? -1)) (ss_binds s) in
       let v1 := verdict_of as_any in
       let verdict := if v1 =? 0 then 0 else verdict_of without in
